@@ -344,9 +344,9 @@ def run_property(pid: str, tier: str, seed: int) -> int:
         seen = set()
         for idx, v in new_viols:
             key = v.get("key", "unclassified")
+            if key in seen or len(seen) >= 25:
+                continue  # one replay file per mechanism key
             path = _write_replay(pid, cases[idx] if idx >= 0 else {"aggregate": True}, v)
-            if key in seen and len(seen) > 0:
-                continue
             seen.add(key)
             print(f"  witness[{key}]: {str(v.get('msg'))[:400]}")
             print(f"VIOLATION property={pid} replay={path}")
@@ -387,6 +387,9 @@ def replay(pid: str, path: str) -> int:
     with open(path) as fp:
         rec = json.load(fp)
     case = rec["case"]
+    w = (rec.get("violation") or {}).get("witness")
+    if isinstance(w, dict) and isinstance(w.get("replay_case"), dict):
+        case = w["replay_case"]  # concrete input of the witness (survives generator changes)
     if hasattr(mod, "setup_shard"):
         mod.setup_shard()
     res = mod.run_case(case)
